@@ -273,7 +273,20 @@ def find_writes(tu, g, blocks):
     return out
 
 
-def analyse_counting_loop(tu, f, g, fun_paths, exp_start, exp_bound, allow_ne=False):
+def analyse_counting_loops(tu, f, g, fun_paths, exp_start, exp_bound, allow_ne=False):
+    """every loop of the function analysed as a canonical counting loop; [] if there is none.  Nested loops are not a
+    recognised form (one LoopInfo carrying the undecided reason)."""
+    heads = sorted({t for s_, t in g.back_edges()})
+    for h1 in heads:
+        for h2 in heads:
+            if h1 != h2 and h2 in natural_loop(g, h1):
+                li = LoopInfo()
+                li.undecided.append('nested loops in the function')
+                return [li]
+    return [analyse_counting_loop(tu, f, g, fun_paths, exp_start, exp_bound, allow_ne, head=h) for h in heads]
+
+
+def analyse_counting_loop(tu, f, g, fun_paths, exp_start, exp_bound, allow_ne=False, head=None):
     """The function must contain exactly one loop, of the canonical counting form
          for (T i = <start>; i < <bound>; ++i) { ... f(i) exactly once ... }
     exp_start / exp_bound: Lin the start / bound must equal.  fun_paths: access paths that denote the functor."""
@@ -281,6 +294,8 @@ def analyse_counting_loop(tu, f, g, fun_paths, exp_start, exp_bound, allow_ne=Fa
     heads = sorted({t for s, t in g.back_edges()})
     if not heads:
         return None
+    if head is not None:
+        heads = [head]
     if len(heads) != 1:
         li.undecided.append('more than one loop in the function (%d loop heads)' % len(heads))
         return li
@@ -612,6 +627,56 @@ def functor_uses(tu, f, fparam, recognised):
     return bad
 
 
+OMP_PARALLEL = ('parallel', 'parallel for', 'parallel for simd', 'parallel sections', 'parallel master', 'parallel loop',
+                'teams', 'target parallel', 'target parallel for')
+OMP_WORKSHARE = ('for', 'for simd', 'sections', 'single', 'loop')
+OMP_TRANSPARENT = ('simd', 'critical', 'master', 'ordered')
+
+
+def omp_join(tu, g, anc):
+    """Does the construct around a dispatch loop join before control leaves it?  anc: OpenMP directives enclosing the loop,
+    innermost first.  ('ok', text) | ('bad', key, text, node) | ('und', text)"""
+    if not anc:
+        return ('ok', 'serial loop')
+    names = [tu.sd(d).get('directive') for d in anc]
+    if any(nm is None for nm in names):
+        return ('und', 'OpenMP directive without side-table entry (%s)' % anc[0]['kind'])
+    pending = None          # (directive node, why its own join is missing)
+    for idx, (d, nm) in enumerate(zip(anc, names)):
+        cl = tu.sd(d).get('clauses', [])
+        if nm in OMP_PARALLEL:
+            return ('ok', '`omp %s`: the parallel region ends with a barrier' % nm)
+        if nm in ('taskloop', 'taskloop simd'):
+            if 'nogroup' not in cl:
+                return ('ok', '`omp %s` without nogroup: implicit taskgroup waits for all generated tasks' % nm)
+            pending = pending or (d, '`omp %s nogroup`: nogroup removes the implicit taskgroup, the encountering thread only creates '
+                                  'the tasks' % nm)
+        elif nm == 'taskgroup':
+            return ('ok', '`omp taskgroup` waits for the tasks generated inside it')
+        elif nm in OMP_WORKSHARE:
+            if not any(x in OMP_PARALLEL for x in names[idx + 1:]):
+                return ('bad', 'omp-directive', 'the loop is executed under `omp %s%s`, which is not a fork-join region of its own: it '
+                        'binds to whatever team encounters it; no team and no join are guaranteed when parallel_for returns (and a '
+                        'nested call is encountered by one thread of the team only)' % (nm, ' nowait' if 'nowait' in cl else ''), d)
+        elif nm == 'task':
+            pending = pending or (d, '`omp task`: the loop becomes a deferred task')
+        elif nm in OMP_TRANSPARENT:
+            continue
+        else:
+            return ('und', 'OpenMP directive `%s` around the dispatch loop is not a recognised form' % nm)
+    if pending is None:
+        return ('ok', 'no deferring construct')
+    d, why = pending
+    pos = g.where(d['id'])
+    if pos is None:
+        return ('und', 'OpenMP directive is not a CFG element')
+    for b, i, n in g.stmts():
+        if n.get('kind') in ('OMPTaskwaitDirective',) and g.postdominates((b.id, i), pos) and (b.id, i) != pos:
+            return ('ok', '%s, followed on every path by `omp taskwait`' % why.split(':')[0])
+    return ('bad', 'omp-join-removed', '%s, and no taskwait / taskgroup follows before parallel_for returns: the call returns while '
+            'indices have not run yet (they run later, with the caller\'s frame and functor possibly gone)' % why, d)
+
+
 def check_impl(ctx, tu, f, cfgname, chains):
     R1, R2 = 'R-C01-1', 'R-C01-2'
     g = tu.cfg(f)
@@ -731,9 +796,9 @@ def check_impl(ctx, tu, f, cfgname, chains):
             cf = tu.callee_fn(n)
             pt = clean_type(cf['params'][0]['ct']) if cf and cf.get('params') else None
             count_args.append(('internal', through_defs(args[0]), pt, n))
-    # ---- loop
-    li = analyse_counting_loop(tu, f, g, {fpath}, Lin.const(0), Lin.atom(('p', ppath)))
-    if li is not None:
+    # ---- loops (one per dispatch arm, e.g. selected by omp_in_parallel())
+    loops = analyse_counting_loops(tu, f, g, {fpath}, Lin.const(0), Lin.atom(('p', ppath)))
+    for li in loops:
         kinds.add('loop')
         und += li.undecided
         for k, t, n in ([] if li.undecided else li.problems):
@@ -742,31 +807,37 @@ def check_impl(ctx, tu, f, cfgname, chains):
             events[li.decl_stmt] = 'loop'
         for c_ in li.calls:
             recognised.add(c_['id'])
-    # ---- OpenMP directive
+    # ---- OpenMP: every dispatch loop must sit in a construct that joins before parallel_for returns
+    jprobs = []
+    joks = []
     omp = [n for n in fn_stmts(tu, f) if n.get('kind', '').startswith('OMP') and n.get('kind', '').endswith('Directive')]
     if omp:
         kinds.add('omp')
-        if len(omp) != 1:
-            und.append('%d OpenMP directives in the dispatch function' % len(omp))
-        else:
-            d = omp[0]
-            dk = d['kind']
-            # the loop associated with the directive must be the canonical loop found above
-            inner_for = [x for x in tu.walk(d) if x.get('kind') in ('ForStmt', 'WhileStmt')]
-            same = li is not None and li.header is not None and inner_for and li.header.term == inner_for[0].get('id')
-            if dk in ('OMPParallelForDirective', 'OMPParallelForSimdDirective'):
-                if not same:
-                    und.append('the OpenMP directive is not attached to the recognised counting loop')
-                else:
-                    ctx.ok(R2, inst, '`omp parallel for`: combined construct, the parallel region ends with a barrier '
-                           '(nowait is not admissible on it)', tu.loc(d))
-            elif dk in ('OMPForDirective', 'OMPForSimdDirective', 'OMPTaskLoopDirective', 'OMPTaskLoopSimdDirective',
-                        'OMPTaskDirective', 'OMPSectionsDirective'):
-                ctx.violation(R2, inst, 'the loop is executed under `%s`, which is not a fork-join region of its own: '
-                              'no join (and no team) is guaranteed when parallel_for returns' % dk, tu.loc(d),
-                              key=key(R2, 'omp-directive'))
+        used = set()
+        for li in loops:
+            if li.header is None or li.undecided:
+                continue
+            # directives whose subtree contains the loop statement, innermost (smallest subtree) first
+            anc = []
+            for d in omp:
+                ids = [x.get('id') for x in tu.walk(d)]
+                if li.header.term in ids:
+                    anc.append((len(ids), d))
+            anc = [d for sz, d in sorted(anc, key=lambda z: z[0])]
+            for d in anc:
+                used.add(d['id'])
+            verdict = omp_join(tu, g, anc)
+            if verdict[0] == 'ok':
+                if anc:
+                    joks.append((verdict[1], anc[0]))
+            elif verdict[0] == 'bad':
+                jprobs.append((verdict[1], verdict[2], verdict[3]))
             else:
-                und.append('OpenMP directive %s is not a recognised form' % dk)
+                und.append(verdict[1])
+        for d in omp:
+            name = tu.sd(d).get('directive', d['kind'])
+            if d['id'] not in used and name not in ('taskwait', 'barrier', 'taskgroup', 'taskyield', 'flush'):
+                und.append('OpenMP directive `%s` is not attached to a recognised counting loop' % name)
     if not kinds & {'tbb', 'internal', 'loop'}:
         if functor_uses(tu, f, pf, recognised):
             ctx.undecided(R1, inst, 'no recognised backend dispatch; the functor is handed to something that is not understood', loc)
@@ -782,6 +853,11 @@ def check_impl(ctx, tu, f, cfgname, chains):
         problems.append((k, t, None))
     for u in sorted(set(und)):
         ctx.undecided(R1, inst, u, loc)
+    if not und:
+        for k, t, n in jprobs:
+            ctx.violation(R2, inst, t, tu.loc(n), key=key(R2, k))
+        for t, n in joks:
+            ctx.ok(R2, inst, t, tu.loc(n))
     if problems and not und:
         for k, t, n in problems:
             ctx.violation(R1, inst, t, tu.loc(n) if n is not None else loc, key=key(R1, k))
@@ -800,7 +876,7 @@ def check_impl(ctx, tu, f, cfgname, chains):
                                nct=nct, signs=sg))
         else:
             check_chain(ctx, tu, inst, 'count to tbb::parallel_for', ch, lo, hi, tu.loc(call), file, fn, cfgname)
-    if li is not None and li.ivar is not None and not li.undecided:
+    for li in [l_ for l_ in loops if l_.ivar is not None and not l_.undecided]:
         M = irange(nct)[1]
         # induction variable must be able to hold every index below the count
         ir = irange(li.itype)
@@ -3783,6 +3859,22 @@ def _plus_form(tu, e, defs):
     return (pf, Lin.const(0)) if pf else None
 
 
+def via_local(tu, e, defs):
+    """' (through the local `v` = <initialiser>)' when the element base is a local pointer, for the diagnostic"""
+    n = leaf(tu, e)
+    if n is not None and n.get('kind') in ('ArraySubscriptExpr',) and tu.kids(n):
+        p = access_path(tu, tu.kids(n)[0])
+        if p in defs:
+            return ' (through the local `%s` = %s at %s)' % (p[2], tu.show(defs[p]), tu.loc(defs[p]))
+    if n is not None and n.get('kind') == 'UnaryOperator' and tu.kids(n):
+        for x in tu.walk(n):
+            if x.get('kind') == 'DeclRefExpr':
+                p = access_path(tu, x)
+                if p in defs and p[0] == 'v' and not irange(tu.sd(x).get('ct')):
+                    return ' (through the local `%s` = %s at %s)' % (p[2], tu.show(defs[p]), tu.loc(defs[p]))
+    return ''
+
+
 def check_foreach(ctx, tu, cfgname):
     R = 'R-C01-5'
     n_it = n_ct = 0
@@ -3848,9 +3940,31 @@ def check_foreach(ctx, tu, cfgname):
             continue
         defs = local_defs(tu, [f, lamf])
         und, bad = [], []
-        exits, _ = count_paths(tu, g, {call['id']: 1}, None, 'P')
-        for k, t in once_verdict(exits):
-            bad.append(('once', 'parallel_for is not called exactly once on every path'))
+        # parallel_for must be reached exactly once unless the range is known to be empty: guards on the element count
+        # (a local holding distance(begin, end)) or on begin == end are understood; begin <= end is the caller's precondition
+        cpath = access_path(tu, args[0])
+        if cpath is None or cpath not in defs:
+            cpath = None
+
+        def range_truth(cond):
+            c, pos = strip_not(tu, cond)
+            if c is None:
+                return None
+            xs = None
+            if c.get('kind') == 'BinaryOperator' and c.get('opcode') in ('==', '!='):
+                xs, op = tu.kids(c), c['opcode']
+            elif c.get('kind') == 'CXXOperatorCallExpr' and tu.sd(c).get('q', '').split('::')[-1] in ('operator==', 'operator!='):
+                xs, op = tu.kids(c)[1:], tu.sd(c)['q'][-2:]
+            if xs is None or len(xs) != 2:
+                return None
+            ps = {access_path(tu, xs[0]), access_path(tu, xs[1])}
+            if ps != {bpath, epath}:
+                return None
+            eq = (op == '==') == pos
+            return {'N': {True, False}, 'Z': {eq}, 'P': {not eq}}
+        exits, _ = count_paths(tu, g, {call['id']: 1}, cpath or ('v', None, '<range>'), 'ZP', range_truth)
+        for k, t in once_verdict(exits, und):
+            bad.append(('once', 'parallel_for is not called exactly once on every path with a non-empty range'))
 
         def subst(p, n_):
             if p in defs and irange(tu.sd(n_).get('ct')) is not None:
@@ -3912,9 +4026,10 @@ def check_foreach(ctx, tu, cfgname):
                         und.append('element index `%r` is not the loop index' % idx)
                 elif kind == 'addr' and not contiguous_iterator(itype):
                     bad.append(('element-address-assumes-contiguous',
-                                'elements are addressed as (&*begin)[i], which is only valid for contiguous storage, but the function '
+                                'elements are addressed as (&*begin)[i]%s, which is only valid for contiguous storage, but the function '
                                 'accepts every random-access iterator (its static_assert tests the iterator category only) and is '
-                                'instantiated here for %s: elements beyond the first storage chunk are read out of bounds' % itype))
+                                'instantiated here for %s: elements beyond the first storage chunk are read out of bounds'
+                                % (via_local(tu, fa[0], defs), itype)))
         for u in sorted(set(und)):
             ctx.undecided(R, inst, u, loc)
         for k, t in ([] if und else sorted(set(bad))):
